@@ -254,13 +254,31 @@ class Item:
             out.append((m.start(), j))
         return s, out
 
-    def loop(self, n, inv, fname=None):
-        """Attach `invariant ... decreases ...` text to the n-th (1-based) loop of the function."""
+    def loop(self, n, inv, fname=None, it=None):
+        """Attach `invariant ... decreases ...` text to the n-th (1-based) loop of the function.
+        `it` names the ghost iterator of a `for` loop (`for x in it: e`), Verus syntax, ghost only."""
         s, loops = self._loops(fname)
         if len(loops) < n:
             raise ExtractError('%s: loop #%d not found (have %d)' % (self.name, n, len(loops)))
-        ob = loops[n - 1][1]
+        st, ob = loops[n - 1]
         self._ins(ob, '\n' + inv.rstrip() + '\n')
+        if it:
+            m = re.compile(r'for\s+[^{]*?\bin\s+').match(s.text, st)
+            if not m:
+                raise ExtractError('%s: loop #%d is not a `for .. in` loop' % (self.name, n))
+            self._ins(m.end(), it + ': ')
+        return self
+
+    def attr(self, text, fname=None):
+        """Verifier attribute in front of a fn (ghost only), e.g. #[verifier::loop_isolation(false)]."""
+        s, (st, sig_end, bo, bc) = self._fn_span(fname)
+        self._ins(st, text.rstrip() + '\n', prio=5)
+        return self
+
+    def body_start(self, ghost, fname=None):
+        """Ghost text right after the function's opening brace (e.g. `let ghost input0 = input;`)."""
+        s, (st, sig_end, bo, bc) = self._fn_span(fname)
+        self._ins(bo + 1, '\n' + ghost.rstrip() + '\n', prio=3)
         return self
 
     def _closures(self, fname=None):
@@ -411,6 +429,31 @@ class Item:
         return self
 
 
+def impl_labels(text):
+    """Verus names methods of the k-th impl block of the crate `impl&%k::name`; map k -> readable label."""
+    s = Src(text, 'generated')
+    labels = []
+    for m in find_code(s.text, s.mask, r'\bimpl\b', regex=True):
+        # skip `impl Trait` in argument position: an impl item is preceded by line start / attributes
+        ls = s.text.rfind('\n', 0, m.start()) + 1
+        if s.text[ls:m.start()].strip() not in ('', 'pub', 'unsafe'):
+            continue
+        j = m.end()
+        while j < len(s.text) and not (s.mask[j] and s.text[j] == '{'):
+            j += 1
+        head = re.sub(r'\s+', ' ', s.text[m.start():j]).strip()
+        mm = re.search(r'\bfor\s+(.*)$', head)
+        if mm:
+            lab = mm.group(1)
+        else:
+            lab = re.sub(r'^impl(<.*?>)?\s*', '', head) if '<' not in head[:5] else head
+            mm2 = re.match(r"impl\s*(<[^{]*?>)?\s*([\w:]+.*)$", head)
+            lab = mm2.group(2) if mm2 else head
+        lab = re.sub(r'\s*where\b.*$', '', lab)
+        labels.append(lab.strip())
+    return labels
+
+
 class Unit:
     def __init__(self, name, repo, expanded_path=None):
         self.name = name
@@ -497,7 +540,9 @@ class Unit:
             out.append(text)
             line += n
         out.append('} // verus!\nfn main() {}\n')
-        return ''.join(out), linemap
+        text = ''.join(out)
+        self.impl_labels = impl_labels(text)
+        return text, linemap
 
     def rewrite_report(self):
         """Human-readable: per item, the rewrite log and the diff source→verified text."""
